@@ -45,22 +45,22 @@ def stepLine (c : Cfg) (line : String) : Cfg × String :=
   | ["dict", mrs, mpts, bc, bp, cs, ps, a, o, d] =>
       match parseRs mrs, parseStore mpts, parseStore bc, parseStore bp, mkDict cs ps a o d with
       | some mrs, some mpts, some bc, some bp, some dd =>
-          (c, report c { eqs := [], pts := mpts, rs := mrs } (resolveDict mrs bc bp dd))
+          (c, report c { eqs := [], pts := mpts, rs := mrs } (resolveDictC c mrs bc bp dd))
       | _, _, _, _, _ => (c, "bad-op")
   | ["file", mrs, mpts, files, cs, ps, a, o, d] =>
       match parseRs mrs, parseStore mpts, parseFiles files, mkDict cs ps a o d with
       | some mrs, some mpts, some fs, some dd =>
-          (c, report c { eqs := [], pts := mpts, rs := mrs } (resolveFile c mrs fs dd))
+          (c, report c { eqs := [], pts := mpts, rs := mrs } (resolveFileC c mrs fs dd))
       | _, _, _, _ => (c, "bad-op")
   | ["fsettings", mrs, mpts, files, cs0, ps0, a0, o0, d0, cs, ps, a, o, d] =>
       match parseRs mrs, parseStore mpts, parseFiles files, mkDict cs0 ps0 a0 o0 d0, mkDict cs ps a o d with
       | some mrs, some mpts, some fs, some d0, some dd =>
-          (c, report c { eqs := [], pts := mpts, rs := mrs } (resolveSettings (resolveFile c mrs fs d0) dd))
+          (c, report c { eqs := [], pts := mpts, rs := mrs } (resolveSettingsC c (resolveFileC c mrs fs d0) dd))
       | _, _, _, _, _ => (c, "bad-op")
   | ["settings", mrs, mpts, bc, bp, cs0, ps0, a0, o0, d0, cs, ps, a, o, d] =>
       match parseRs mrs, parseStore mpts, parseStore bc, parseStore bp, mkDict cs0 ps0 a0 o0 d0, mkDict cs ps a o d with
       | some mrs, some mpts, some bc, some bp, some d0, some dd =>
-          (c, report c { eqs := [], pts := mpts, rs := mrs } (resolveSettings (resolveDict mrs bc bp d0) dd))
+          (c, report c { eqs := [], pts := mpts, rs := mrs } (resolveSettingsC c (resolveDictC c mrs bc bp d0) dd))
       | _, _, _, _, _, _ => (c, "bad-op")
   | _ => (c, "bad-op")
 
@@ -70,6 +70,9 @@ def stepM (st : DSt) (line : String) : DSt × String :=
   match line.trimAscii.toString.splitOn " " with
   | ["cfg", a, b, o] =>
       ({ st with c := { runspecStartApplied := a == "1", fileRunspecsKept := b == "1", scenarioOwnsDicts := o == "1" } }, "ok")
+  | ["cfg", a, b, o, q] =>
+      ({ st with c := { runspecStartApplied := a == "1", fileRunspecsKept := b == "1", scenarioOwnsDicts := o == "1",
+                        overrideByPresence := q == "1" } }, "ok")
   | ["mgr", mrs, bc, bp] =>
       match parseRs mrs, parseStore bc, parseStore bp with
       | some mrs, some bc, some bp => ({ st with mrs := mrs, m := MState.init bc bp }, "ok")
